@@ -46,6 +46,7 @@ type QCfg struct {
 	FEnq int `json:"fenq,omitempty"`
 	FDeq int `json:"fdeq,omitempty"`
 	FAck int `json:"fack,omitempty"`
+	FAckLost  int `json:"facklost,omitempty"`  // percent of acknowledgements that are applied but answered "refused"
 	FAckStall int `json:"fackstall,omitempty"` // percent of acknowledgements that stall until the next Settle
 	// notification faults (distributed)
 	NDelay int `json:"ndelay,omitempty"` // max delay in time units
